@@ -60,6 +60,13 @@ BASES = [
         M("same_c", "mut", ["u64"], "u64"),
         M("finish", "own", [], "u64"),
     ]),
+    T("Delta", [
+        M("feed", "ref", ["OpaqueCallback<u32>"], "u32"),
+        M("drain", "mut", ["CIterator<u32>", "u8"], "u64"),
+        M("bytes", "ref", ["CSliceRef<u8>"], "usize"),
+        M("pods", "mut", ["OpaqueCallback<Pod>", "CSliceMut<u32>"], ""),
+        M("maybe", "ref", ["COption<u32>"], "COption<u64>"),
+    ]),
     T("Gamma", [
         M("res_a", "ref", ["u8"], "Result<u32, ()>"),
         M("res_b", "mut", ["u8"], "Result<(), ()>"),
@@ -68,9 +75,12 @@ BASES = [
 ]
 
 ARG_SWAPS = {"u32": ["u64", "i32", "u16"], "u64": ["u32", "i64", "usize"], "u8": ["i8", "u16"], "&[u8]": ["&[u16]", "&[u32]", "&mut [u8]"], "&str": ["&[u16]"],
-             "Option<u64>": ["Option<u32>", "u64"], "Pod": ["Pod2"], "f64": ["f32", "u64"], "bool": ["u8"], "usize": ["u32"]}
+             "Option<u64>": ["Option<u32>", "u64"], "Pod": ["Pod2"], "f64": ["f32", "u64"], "bool": ["u8"], "usize": ["u32"],
+             # the element type of the library's own generic FFI types is part of the entry's C signature
+             "OpaqueCallback<u32>": ["OpaqueCallback<u64>", "OpaqueCallback<Pod>"], "CIterator<u32>": ["CIterator<u64>", "CIterator<i32>"], "CSliceRef<u8>": ["CSliceRef<u16>", "CSliceMut<u8>"],
+             "OpaqueCallback<Pod>": ["OpaqueCallback<Pod2>"], "CSliceMut<u32>": ["CSliceMut<u64>"], "COption<u32>": ["COption<u64>", "u32"]}
 RET_SWAPS = {"u32": ["u64", "i32", ""], "u64": ["u32", "i64"], "usize": ["u32"], "Option<u64>": ["Option<u32>", "u64"], "Pod": ["Pod2"], "f64": ["f32"],
-             "Result<u64, ()>": ["Result<u32, ()>"], "Result<u32, ()>": ["Result<u64, ()>"], "Result<(), ()>": ["Result<u8, ()>"]}
+             "Result<u64, ()>": ["Result<u32, ()>"], "Result<u32, ()>": ["Result<u64, ()>"], "Result<(), ()>": ["Result<u8, ()>"], "COption<u64>": ["COption<u32>"]}
 
 
 def variants(base, tier):
@@ -103,7 +113,7 @@ def variants(base, tier):
     # argument types
     for i, m in enumerate(base.methods):
         for j, a in enumerate(m.args):
-            for alt in ARG_SWAPS.get(a, [])[: (1 if tier == "quick" else 9)]:
+            for alt in ARG_SWAPS.get(a, [])[: (1 if tier == "quick" and base.name != "Delta" else 9)]:
                 t = copy.deepcopy(base)
                 t.methods[i].args[j] = alt
                 add("method %s: argument %d %s -> %s" % (m.name, j, a, alt), t)
@@ -216,6 +226,20 @@ WRAPPED_EDITS = [
     ("plain method next to them: argument u32 -> u64", "fn plain(&self, a0: u32) -> u32;", "fn plain(&self, a0: u64) -> u32;", False),
 ]
 
+# a trait with several type parameters: every expansion of the identical definition (what a host and a plugin each do for themselves) must describe
+# the same layout; instantiations and uses of the parameters that differ must not
+MULTI_BASE = """    #[cglue_trait] pub trait Multi<A, B, C, D> {
+        fn m(&self, a: A, b: B) -> C;
+        fn d(&mut self, c: C) -> D;
+    }"""
+MULTI_INST = "u8, u16, u32, u64"
+MULTI_EDITS = [("identical copy (expansion %d)" % i, None, None, MULTI_INST, True) for i in range(2, 8)] + [
+    ("two parameters swapped in an entry", "fn m(&self, a: A, b: B) -> C;", "fn m(&self, a: B, b: A) -> C;", MULTI_INST, False),
+    ("argument and return parameters swapped", "fn d(&mut self, c: C) -> D;", "fn d(&mut self, c: D) -> C;", MULTI_INST, False),
+    ("identical definition, other instantiation", None, None, "u16, u8, u32, u64", False),
+    ("identical definition, last parameter instantiated differently", None, None, "u8, u16, u32, i64", False),
+]
+
 # single edits *inside* a trait of the group; the group definition itself is unchanged and the comparison goes through the group's layout
 GTRAIT_LINES = {
     "Ma": "#[cglue_trait] pub trait Ma { fn ma(&self) -> u64; }",
@@ -288,6 +312,14 @@ def main():
         for kind in ("Box", "ArcBox"):
             checks.append((len(meta), "wbase::Outer%s<'static>" % kind, "w%d::Outer%s<'static>" % (wi, kind)))
             meta.append(dict(id=len(meta), base="Outer", edit=desc, kind=kind, interfaces_equal=equal))
+    body.append("pub mod mbase {\n    use super::*;\n%s\n}" % MULTI_BASE)
+    for wi, (desc, a_, b_, inst, equal) in enumerate(MULTI_EDITS):
+        text = MULTI_BASE if a_ is None else MULTI_BASE.replace(a_, b_)
+        assert a_ is None or text != MULTI_BASE
+        body.append("pub mod mu%d {\n    use super::*;\n%s\n}" % (wi, text))
+        for kind in ("Box", "ArcBox"):
+            checks.append((len(meta), "mbase::Multi%s<'static, %s>" % (kind, MULTI_INST), "mu%d::Multi%s<'static, %s>" % (wi, kind, inst)))
+            meta.append(dict(id=len(meta), base="Multi", edit=desc, kind=kind, interfaces_equal=equal))
     body.append("fn main() {")
     for i, a, b in checks:
         body.append("    println!(\"{{\\\"k\\\":\\\"pair\\\",\\\"id\\\":%d,\\\"ab\\\":\\\"{}\\\",\\\"ba\\\":\\\"{}\\\",\\\"aa\\\":\\\"{}\\\",\\\"a_none\\\":\\\"{}\\\",\\\"none_b\\\":\\\"{}\\\"}}\", vname(compare_layouts(Some(<%s as StableAbi>::LAYOUT), Some(<%s as StableAbi>::LAYOUT))), vname(compare_layouts(Some(<%s as StableAbi>::LAYOUT), Some(<%s as StableAbi>::LAYOUT))), vname(compare_layouts(Some(<%s as StableAbi>::LAYOUT), Some(<%s as StableAbi>::LAYOUT))), vname(compare_layouts(Some(<%s as StableAbi>::LAYOUT), None)), vname(compare_layouts(None, Some(<%s as StableAbi>::LAYOUT))));" % (i, a, b, b, a, a, a, a, b))
